@@ -218,3 +218,108 @@ Lemma sorted_lt_nodup : forall l, StronglySorted lt l -> NoDup l.
 Proof.
   induction 1 as [|a l _ IH HF]; constructor; [|exact IH]. intros Hin. rewrite Forall_forall in HF. specialize (HF a Hin). lia.
 Qed.
+
+(* ------------------------------------------------------------------ the two enumerations of the matched pairs agree *)
+Lemma flat_map_ext_in' : forall A B (f g : A -> list B) l, (forall x, In x l -> f x = g x) -> flat_map f l = flat_map g l.
+Proof.
+  intros A B f g l H. induction l as [|x t IH]; simpl; [reflexivity|].
+  rewrite H by (left; reflexivity). f_equal. apply IH. intros y Hy. apply H. right; exact Hy.
+Qed.
+
+Section PairsAgree.
+Variable ign : bool.
+Variables As At : nat -> bool.
+Local Notation pubf := (fun e : c05_ientry => ign || c05_ie_pub e).
+
+Lemma find_none_g : forall g (L : c05_iset), (forall e, In e L -> c05_ie_g e <> g) ->
+  find (fun e => (c05_ie_g e =? g) && pubf e) L = None.
+Proof.
+  induction L as [|x t IH]; intros H; simpl; [reflexivity|].
+  destruct (Nat.eqb_spec (c05_ie_g x) g) as [E|_]; [exfalso; apply (H x); [left; reflexivity|exact E]|]. simpl.
+  apply IH. intros e He. apply H. right; exact He.
+Qed.
+
+(* dropping from the searched set an entry whose global no enumerated entry has *)
+Lemma pairs_skip_T : forall (S : c05_iset) x T, (forall e, In e S -> c05_ie_g e <> c05_ie_g x) ->
+  c05_spec_pairs ign As At S (x :: T) = c05_spec_pairs ign As At S T.
+Proof.
+  intros S x T H. unfold c05_spec_pairs. apply flat_map_ext_in'. intros e He. simpl.
+  destruct (Nat.eqb_spec (c05_ie_g x) (c05_ie_g e)) as [E|_]; [exfalso; apply (H e He); symmetry; exact E|]. reflexivity.
+Qed.
+Lemma pairs_t_skip_S : forall (T : c05_iset) x S, (forall e, In e T -> c05_ie_g e <> c05_ie_g x) ->
+  c05_spec_pairs_t ign As At (x :: S) T = c05_spec_pairs_t ign As At S T.
+Proof.
+  intros T x S H. unfold c05_spec_pairs_t. apply flat_map_ext_in'. intros e He. simpl.
+  destruct (Nat.eqb_spec (c05_ie_g x) (c05_ie_g e)) as [E|_]; [exfalso; apply (H e He); symmetry; exact E|]. reflexivity.
+Qed.
+(* dropping an enumerated entry that has no partner *)
+Lemma pairs_head_absent : forall a S T, (forall e, In e T -> c05_ie_g e <> c05_ie_g a) ->
+  c05_spec_pairs ign As At (a :: S) T = c05_spec_pairs ign As At S T.
+Proof.
+  intros a S T H. unfold c05_spec_pairs. simpl. rewrite (find_none_g (c05_ie_g a) T H).
+  destruct (pubf a && As (c05_ie_a a)); reflexivity.
+Qed.
+Lemma pairs_t_head_absent : forall b S T, (forall e, In e S -> c05_ie_g e <> c05_ie_g b) ->
+  c05_spec_pairs_t ign As At S (b :: T) = c05_spec_pairs_t ign As At S T.
+Proof.
+  intros b S T H. unfold c05_spec_pairs_t. simpl. rewrite (find_none_g (c05_ie_g b) S H).
+  destruct (pubf b && At (c05_ie_a b)); reflexivity.
+Qed.
+
+Lemma P_pairs_agree : forall S T, c05_gsorted S -> c05_gsorted T ->
+  c05_spec_pairs ign As At S T = c05_spec_pairs_t ign As At S T.
+Proof.
+  intros S T. remember (length S + length T) as n eqn:Hn. revert S T Hn.
+  induction n as [n IH] using lt_wf_ind. intros S T Hn SS ST.
+  destruct S as [|a S'].
+  - unfold c05_spec_pairs, c05_spec_pairs_t. simpl. clear. induction T as [|b T' IHT]; simpl; [reflexivity|].
+    rewrite <- IHT. destruct (pubf b && At (c05_ie_a b)); reflexivity.
+  - destruct T as [|b T'].
+    + unfold c05_spec_pairs, c05_spec_pairs_t. simpl flat_map at 2. clear. generalize (a :: S'). intros l.
+      induction l as [|x t IHt]; simpl in *; [reflexivity|].
+      rewrite IHt. destruct ((ign || c05_ie_pub x) && As (c05_ie_a x)); reflexivity.
+    + destruct (lt_eq_lt_dec (c05_ie_g a) (c05_ie_g b)) as [[Hlt|Heq]|Hgt].
+      * rewrite (pairs_head_absent a S' (b :: T')).
+        2:{ intros e [He|He]; [subst e; lia|]. pose proof (sorted_tail_gt b T' ST e He). lia. }
+        rewrite (pairs_t_skip_S (b :: T') a S').
+        2:{ intros e [He|He]; [subst e; lia|]. pose proof (sorted_tail_gt b T' ST e He). lia. }
+        apply (IH (length S' + length (b :: T'))); [simpl in *; lia|reflexivity|eapply sorted_tail; eauto|exact ST].
+      * (* shared global: the same single pair (or none) on both sides, then the tails *)
+        assert (E1 : c05_spec_pairs ign As At (a :: S') (b :: T') =
+                     (if pubf a && As (c05_ie_a a) then if pubf b then if At (c05_ie_a b) then [(a, b)] else [] else [] else [])
+                     ++ c05_spec_pairs ign As At S' T').
+        { change (c05_spec_pairs ign As At (a :: S') (b :: T')) with
+            ((if pubf a && As (c05_ie_a a) then
+                match find (fun e' => (c05_ie_g e' =? c05_ie_g a) && pubf e') (b :: T') with
+                | Some e' => if At (c05_ie_a e') then [(a, e')] else [] | None => [] end else [])
+             ++ c05_spec_pairs ign As At S' (b :: T')).
+          rewrite (pairs_skip_T S' b T') by (intros e He; pose proof (sorted_tail_gt a S' SS e He); lia).
+          f_equal. destruct (pubf a && As (c05_ie_a a)); [|reflexivity].
+          simpl find. replace (c05_ie_g b =? c05_ie_g a) with true by (symmetry; apply Nat.eqb_eq; lia). simpl.
+          destruct (ign || c05_ie_pub b) eqn:Eb; simpl; [reflexivity|].
+          rewrite (find_none_g (c05_ie_g a) T'); [reflexivity|].
+          intros e He. pose proof (sorted_tail_gt b T' ST e He). lia. }
+        assert (E2 : c05_spec_pairs_t ign As At (a :: S') (b :: T') =
+                     (if pubf b && At (c05_ie_a b) then if pubf a then if As (c05_ie_a a) then [(a, b)] else [] else [] else [])
+                     ++ c05_spec_pairs_t ign As At S' T').
+        { change (c05_spec_pairs_t ign As At (a :: S') (b :: T')) with
+            ((if pubf b && At (c05_ie_a b) then
+                match find (fun e => (c05_ie_g e =? c05_ie_g b) && pubf e) (a :: S') with
+                | Some e => if As (c05_ie_a e) then [(e, b)] else [] | None => [] end else [])
+             ++ c05_spec_pairs_t ign As At (a :: S') T').
+          rewrite (pairs_t_skip_S T' a S') by (intros e He; pose proof (sorted_tail_gt b T' ST e He); lia).
+          f_equal. destruct (pubf b && At (c05_ie_a b)); [|reflexivity].
+          simpl find. replace (c05_ie_g a =? c05_ie_g b) with true by (symmetry; apply Nat.eqb_eq; lia). simpl.
+          destruct (ign || c05_ie_pub a) eqn:Ea; simpl; [reflexivity|].
+          rewrite (find_none_g (c05_ie_g b) S'); [reflexivity|].
+          intros e He. pose proof (sorted_tail_gt a S' SS e He). lia. }
+        rewrite E1, E2. f_equal.
+        -- destruct (ign || c05_ie_pub a), (As (c05_ie_a a)), (ign || c05_ie_pub b), (At (c05_ie_a b)); reflexivity.
+        -- apply (IH (length S' + length T')); [simpl in *; lia|reflexivity|eapply sorted_tail; eauto|eapply sorted_tail; eauto].
+      * rewrite (pairs_skip_T (a :: S') b T').
+        2:{ intros e [He|He]; [subst e; lia|]. pose proof (sorted_tail_gt a S' SS e He). lia. }
+        rewrite (pairs_t_head_absent b (a :: S') T').
+        2:{ intros e [He|He]; [subst e; lia|]. pose proof (sorted_tail_gt a S' SS e He). lia. }
+        apply (IH (length (a :: S') + length T')); [simpl in *; lia|reflexivity|exact SS|eapply sorted_tail; eauto].
+Qed.
+End PairsAgree.
